@@ -172,6 +172,19 @@ breaking('O1-del-cached-list', {'C06': 'O1'}, patch='/verif/selftest/patches/see
 breaking('SH1-boundary-broadcast', {'C06': 'SH1'}, edit=[(M + 'entangle/_misc.py', "    tmp0 = (np.linalg.eigvalsh(dm) - 1/N0)/dm_norm.reshape(-1,1)\n    beta_l = -1/(N0*tmp0[:,-1])\n    beta_u = -1/(N0*tmp0[:,0])", "    tmp0 = dm_norm/(1 - N0*np.linalg.eigvalsh(dm))\n    beta_l = tmp0[:,-1]\n    beta_u = tmp0[:,0]")])
 breaking('M3-decode-prefix-shape', {'C11': 'M3'}, edit=[(M + 'sim/state.py', "ind1a = np.unravel_index(ind1, tuple(shape[x] for x in keep_dim))", "ind1a = np.unravel_index(ind1, shape[:len(keep_dim)])")])
 breaking('MC1-coarse-memo-key', {'C05': 'MC1'}, patch='/verif/selftest/patches/seed_c05_r2m1.diff')
+breaking('HM3-seed-C13-r2m3', {'C13': 'HM3'}, patch='/verif/selftest/patches/seed_C13_r2m3.diff')
+breaking('AG5-seed-C15-r2m2', {'C15': 'AG5'}, patch='/verif/selftest/patches/seed_C15_r2m2.diff')
+breaking('KR1-seed-C16-r2m1', {'C16': 'KR1'}, patch='/verif/selftest/patches/seed_C16_r2m1.diff')
+breaking('F2-seed-C16-r2m2', {'C16': 'F2'}, patch='/verif/selftest/patches/seed_C16_r2m2.diff')
+breaking('G1-seed-C16-r2m3', {'C16': 'G1'}, patch='/verif/selftest/patches/seed_C16_r2m3.diff')
+breaking('RO1-seed-C17-r2m1', {'C17': 'RO1'}, patch='/verif/selftest/patches/seed_C17_r2m1.diff')
+breaking('DT2-seed-C17-r2m3', {'C17': 'DT2'}, patch='/verif/selftest/patches/seed_C17_r2m3.diff')
+breaking('KR1-seed-C18-r2m3', {'C18': 'KR1'}, patch='/verif/selftest/patches/seed_C18_r2m3.diff')
+breaking('NZ1-seed-C20-r2m2', {'C20': 'NZ1'}, patch='/verif/selftest/patches/seed_C20_r2m2.diff')
+breaking('K5-seed-C20-r2m3', {'C20': 'K5'}, patch='/verif/selftest/patches/seed_C20_r2m3.diff')
+breaking('O5-seed-C09-r2m1', {'C09': 'O5'}, patch='/verif/selftest/patches/seed_C09_r2m1.diff')
+breaking('S7-seed-C09-r2m2', {'C09': 'S7', 'C10': 'S7'}, patch='/verif/selftest/patches/seed_C09_r2m2.diff')
+breaking('SP4-seed-C09-r2m3', {'C09': 'SP4'}, patch='/verif/selftest/patches/seed_C09_r2m3.diff')
 breaking('refix-get_gme_2qubit', {'C13': 'F2', 'C05': 'F2'}, patch_reverse='fix_78cd862.diff')
 
 # ---- textual breaking edits, one per rule family
